@@ -198,22 +198,102 @@ Definition fmt_rfc3339_utc (secs : Z) : bytes :=
 
 Definition w_time (t : vtime) : bytes := dquote :: fmt_rfc3339_utc (vsecs t) ++ [dquote].
 
-(* ---- xsdDuration (encoding_json.go, since fix 5a7198d): day and time designators only, for durations of whole
-   seconds; None = outside the modelled range (fractions of a second, zero - which the callers never write) ---- *)
-Definition fmt_xsd_duration (nanos : Z) : option bytes :=
-  let a := Z.abs nanos in
-  if (a mod 1000000000 =? 0) && negb (nanos =? 0) then
-    let s := a / 1000000000 in
-    let dd := s / 86400 in let r := s mod 86400 in
-    let h := r / 3600 in let mi := (r mod 3600) / 60 in let se := r mod 60 in
-    Some ((if nanos <? 0 then [x2d] else []) ++ B "P" ++
-          (if 0 <? dd then digits dd ++ B "D" else []) ++
-          (if 0 <? r then B "T" ++
-             (if 0 <? h then digits h ++ B "H" else []) ++
-             (if 0 <? mi then digits mi ++ B "M" else []) ++
-             (if 0 <? se then digits se ++ B "S" else [])
-           else []))
+(* JSONWriteTimeProp (since fix 2fbd1a5) writes the property only when t.UTC().Year() lies in 0..9999: RFC 3339 has
+   four-digit years, and time.Format would print "10000-..." or "-0001-..." *)
+Definition utc_year (secs : Z) : Z := let '(y, _, _) := civil_from_days (secs / 86400) in y.
+Definition time_writable (t : vtime) : bool := let y := utc_year (vsecs t) in (0 <=? y) && (y <=? 9999).
+
+(* ---- float64 arithmetic, exactly, on integers: a positive finite double is (m, e), standing for m * 2^e with
+   2^52 <= m < 2^53 (no subnormals, no overflow: the values below lie between 1e-9 and 60) ---- *)
+(* numerator and denominator of p / (q * 2^e) *)
+Definition scale_div (p q e : Z) : Z * Z := if 0 <=? e then (p, q * 2 ^ e) else (p * 2 ^ (- e), q).
+(* the binary floating-point number with a mantissa of [prec] bits nearest to p / q, ties to even (IEEE 754
+   round-to-nearest-even: what the hardware division and addition deliver, and what strconv.ParseFloat returns for a
+   decimal); p, q > 0; (m, e) stands for m * 2^e with 2^(prec-1) <= m < 2^prec *)
+Definition rn_float (prec : Z) (p q : Z) : Z * Z :=
+  let e0 := Z.log2 p - Z.log2 q - (prec - 1) in
+  let '(n0, d0) := scale_div p q e0 in
+  let e := if n0 / d0 <? 2 ^ (prec - 1) then e0 - 1 else e0 in
+  let '(n, d) := scale_div p q e in
+  let m := n / d in let r := n mod d in
+  let m' := if (d <? 2 * r) || ((2 * r =? d) && Z.odd m) then m + 1 else m in
+  if m' =? 2 ^ prec then (2 ^ (prec - 1), e + 1) else (m', e).
+Definition rn64 : Z -> Z -> Z * Z := rn_float 53.      (* float64 *)
+Definition rn32 : Z -> Z -> Z * Z := rn_float 24.      (* float32 *)
+
+(* time.Duration.Seconds: sec := d / Second; nsec := d % Second; return float64(sec) + float64(nsec)/1e9
+   - one rounding in the division, a second one in the addition; 0 < r < 2^53 nanoseconds *)
+Definition go_seconds (r : Z) : Z * Z :=
+  let sec := r / 1000000000 in let nsec := r mod 1000000000 in
+  if nsec =? 0 then rn64 sec 1
+  else let '(mg, eg) := rn64 nsec 1000000000 in          (* eg < 0 *)
+       rn64 (sec * 2 ^ (- eg) + mg) (2 ^ (- eg)).
+
+(* strconv's shortest formatting (ftoaryu.go, ryuFtoaShortest): of all decimals t * 10^q that read back as the double
+   (that lie between the midpoints to its neighbours, the midpoints included when the mantissa is even) the ones with the
+   largest q, and of those the one nearest to the double (ties to the even t), kept inside the interval.
+   [low / D, up / D] is the interval, mid / D the double. *)
+Definition shortest_at (low mid up D : Z) (closed : bool) (q : Z) : option Z :=
+  let '(ln, mn, un, dd) :=
+    if 0 <=? q then (low, mid, up, D * 10 ^ q) else (low * 10 ^ (- q), mid * 10 ^ (- q), up * 10 ^ (- q), D) in
+  let tmin := if (ln mod dd =? 0) && closed then ln / dd else ln / dd + 1 in
+  let tmax := if (un mod dd =? 0) && negb closed then un / dd - 1 else un / dd in
+  if (tmin <=? tmax) && (0 <? tmax) then
+    let c := mn / dd in let cr := mn mod dd in
+    let t := if (dd <? 2 * cr) || ((2 * cr =? dd) && Z.odd c) then c + 1 else c in
+    Some (Z.min (Z.max t tmin) tmax)
   else None.
+Fixpoint shortest_go (fuel : nat) (low mid up D : Z) (closed : bool) (q : Z) : Z * Z :=
+  match fuel with
+  | O => (0, 0)
+  | S f => match shortest_at low mid up D closed q with
+           | Some t => (t, q)
+           | None => shortest_go f low mid up D closed (q - 1)
+           end
+  end.
+(* for doubles below 1000 (q starts at 2) and not below 1e-20 (fuel) *)
+Definition shortest64 (m e : Z) : Z * Z :=
+  let low := 4 * m - (if m =? 2 ^ 52 then 1 else 2) in
+  let '(l, c, u, D) :=
+    if 0 <=? e - 2 then (low * 2 ^ (e - 2), 4 * m * 2 ^ (e - 2), (4 * m + 2) * 2 ^ (e - 2), 1)
+    else (low, 4 * m, 4 * m + 2, 2 ^ (2 - e)) in
+  shortest_go 40 l c u D (Z.even m) 2.
+
+(* strconv's %f of the shortest digits: no exponent, as many fraction digits as the digits need *)
+Definition fmt_f_shortest (t q : Z) : bytes :=
+  if 0 <=? q then digits t ++ repeat x30 (Z.to_nat q)
+  else let p := 10 ^ (- q) in digits (t / p) ++ [x2e] ++ digits_w (Z.to_nat (- q)) (t mod p).
+
+(* strconv.AppendFloat(v, time.Duration(r).Seconds(), 'f', -1, 64) *)
+Definition fmt_go_seconds (r : Z) : bytes :=
+  let '(m, e) := go_seconds r in let '(t, q) := shortest64 m e in fmt_f_shortest t q.
+
+(* ---- xsdDuration (encoding_json.go, since fix 5a7198d; magnitude unsigned since the fix "the most negative
+   duration was written as -P"): day and time designators only; the seconds that remain below a minute are printed by
+   strconv.AppendFloat of Duration.Seconds().  Defined for EVERY duration (always Some; the option is kept for the
+   callers); zero - which the callers never write - is "PT0S" as in the code ---- *)
+Definition ns_day : Z := 86400000000000.
+Definition ns_hour : Z := 3600000000000.
+Definition ns_min : Z := 60000000000.
+Definition fmt_xsd_duration (nanos : Z) : option bytes :=
+  Some
+   (if nanos =? 0 then B "PT0S" else
+    let a := Z.abs nanos in
+    let dd := a / ns_day in let r := a mod ns_day in
+    let h := r / ns_hour in let r1 := r mod ns_hour in
+    let mi := r1 / ns_min in let r2 := r1 mod ns_min in
+    (if nanos <? 0 then [x2d] else []) ++ B "P" ++
+    (if 0 <? dd then digits dd ++ B "D" else []) ++
+    (if 0 <? r then B "T" ++
+       (if 0 <? h then digits h ++ B "H" else []) ++
+       (if 0 <? mi then digits mi ++ B "M" else []) ++
+       (if 0 <? r2 then fmt_go_seconds r2 ++ B "S" else [])
+     else [])).
+
+(* before that fix: `d = -d` on the int64 - the most negative duration stays negative, no part is positive, and only
+   the sign and the P are written (Go's / and % truncate; the parts are only computed for a positive remainder) *)
+Definition fmt_xsd_duration_negate_pinned (nanos : Z) : option bytes :=
+  if nanos =? - 2 ^ 63 then Some (B "-P") else fmt_xsd_duration nanos.
 
 (* the pinned tree used xsd.Marshal of go-xsd-duration: months of 30 days and years of 356 days, but HOW MANY fit
    decided with divisors of 28 and 336 days (float arithmetic on whole numbers, exact here) *)
